@@ -148,7 +148,6 @@ package nflog
 //@   ensures [sync-first] called("os.File).Close") ==> called("os.File).Sync") && ret("os.File).Sync") == nil
 //@ func openReplace
 //@   props C11
-//@   nosafe
 //@   ensures [fresh-truncated-temp-file] result1 == nil ==> called("os.Create") && ret1("os.Create") == nil && result0 != nil && result0.File == ret("os.Create") && result0.filename == filename
 //@   ensures [target-untouched] !called("os.Rename") && !called("os.Remove")
 //@   ensures [error-means-nothing] result1 != nil ==> result0 == nil
@@ -217,7 +216,6 @@ package nflog
 // error aborts with that error and no partial output.
 //@ func (state).MarshalBinary
 //@   props C10 C11 C19
-//@   nosafe
 //@   at call protodelim.MarshalTo assert [a-stored-entry] exists k string :: (k in s) && s[k] == unbox(arg1, *pb.MeshEntry)
 //@   ensures [every-entry-encoded-once] result1 == nil ==> count("protodelim.MarshalTo") == len(s)
 //@   ensures [error-aborts] called("protodelim.MarshalTo") && ret1("protodelim.MarshalTo") != nil ==> result1 == ret1("protodelim.MarshalTo") && result0 == nil
